@@ -1,0 +1,129 @@
+//go:build verif && (verif_all || verif_c17)
+// +build verif
+// +build verif_all verif_c17
+
+package gocql
+
+// Verification hooks (build tag `verif`) for the connect-pipeline part of C17: handles on the
+// unexported hostConnPool objects (they stay observable after the pool has been removed from the
+// policyConnPool), and the session's host removal / host addition entry points. Add-only thin
+// wrappers; no logic of their own.
+
+import (
+	"net"
+	"time"
+)
+
+// VerifHostPool is a handle on one hostConnPool.
+type VerifHostPool struct{ p *hostConnPool }
+
+// VerifHostPools returns the pools currently registered in the session's policyConnPool, keyed by the
+// host's connect address.
+func VerifHostPools(s *Session) map[string]*VerifHostPool {
+	out := map[string]*VerifHostPool{}
+	s.pool.mu.RLock()
+	for _, p := range s.pool.hostConnPools {
+		out[p.host.ConnectAddress().String()] = &VerifHostPool{p: p}
+	}
+	s.pool.mu.RUnlock()
+	return out
+}
+
+// Same reports whether both handles name the same pool object.
+func (v *VerifHostPool) Same(o *VerifHostPool) bool { return v != nil && o != nil && v.p == o.p }
+
+// State is (len(conns), size, closed, filling) read under the pool's lock.
+func (v *VerifHostPool) State() (conns, size int, closed, filling bool) {
+	v.p.mu.RLock()
+	defer v.p.mu.RUnlock()
+	return len(v.p.conns), v.p.size, v.p.closed, v.p.filling
+}
+
+// NetConns returns the sockets of the connections currently in pool.conns.
+func (v *VerifHostPool) NetConns() []net.Conn {
+	v.p.mu.RLock()
+	defer v.p.mu.RUnlock()
+	out := make([]net.Conn, 0, len(v.p.conns))
+	for _, c := range v.p.conns {
+		out = append(out, c.conn)
+	}
+	return out
+}
+
+// Close is hostConnPool.Close.
+func (v *VerifHostPool) Close() { v.p.Close() }
+
+// Pick is hostConnPool.Pick (which starts `go pool.fill()` on a short pool); true when a connection was returned.
+func (v *VerifHostPool) Pick() bool { return v.p.Pick() != nil }
+
+// VerifConnNetConn returns the socket of a connection.
+func VerifConnNetConn(c *Conn) net.Conn { return c.conn }
+
+// VerifHostByIP returns the ring's HostInfo with that connect address (nil when unknown).
+func VerifHostByIP(s *Session, ip net.IP) *HostInfo {
+	for _, h := range s.ring.allHosts() {
+		if h.ConnectAddress().Equal(ip) {
+			return h
+		}
+	}
+	return nil
+}
+
+// VerifNodeDown is Session.handleNodeDown (a DOWN status event) for the address under which the ring knows
+// the host (its node-to-node address; hosts taken from the configuration all have 0.0.0.0 there, so with
+// several configured hosts the ring resolves it to one of them): host marked down, policy told, pool removed.
+func VerifNodeDown(s *Session, h *HostInfo) { s.handleNodeDown(h.nodeToNodeAddress(), h.Port()) }
+
+// VerifRemoveHost is Session.removeHost (what a ring refresh does with a host that left): policy, pool, ring.
+func VerifRemoveHost(s *Session, h *HostInfo) { s.removeHost(h) }
+
+// VerifPoolSetHosts is policyConnPool.SetHosts on the ring's hosts except `without`.
+func VerifPoolSetHosts(s *Session, without *HostInfo) {
+	var hs []*HostInfo
+	for _, h := range s.ring.allHosts() {
+		if h != without {
+			hs = append(hs, h)
+		}
+	}
+	s.pool.SetHosts(hs)
+}
+
+// VerifAddHost is what a ring refresh does with a host it did not know (ring.addHostIfMissing +
+// Session.startPoolFill), which is also what handleNodeUp does after its version dependent delay.
+func VerifAddHost(s *Session, h *HostInfo) {
+	s.ring.addHostIfMissing(h)
+	s.startPoolFill(h)
+}
+
+// VerifRefreshDebouncerRaceW is VerifRefreshDebouncerRace with the caller deciding how long to wait for stop():
+// `returned(done)` must report whether done was closed before the caller's watchdog gave up. The run ends after
+// maxHung rounds in which stop() did not return.
+func VerifRefreshDebouncerRaceW(rounds, maxHung int, returned func(done <-chan struct{}) bool) (hung int) {
+	for i := 0; i < rounds && hung < maxHung; i++ {
+		d := newRefreshDebouncer(time.Hour, func() error { return nil })
+		done := make(chan struct{})
+		go func() { <-d.refreshNow() }()
+		if i%3 == 0 {
+			go d.debounce()
+		}
+		go func() { d.stop(); close(done) }()
+		if !returned(done) {
+			hung++
+		}
+	}
+	return hung
+}
+
+// VerifEventDebouncerRaceW: the same for eventDebouncer (debounce ∥ stop).
+func VerifEventDebouncerRaceW(rounds, maxHung int, returned func(done <-chan struct{}) bool) (hung int) {
+	for i := 0; i < rounds && hung < maxHung; i++ {
+		e := newEventDebouncer("verif", func([]frame) {}, nopLogger{})
+		done := make(chan struct{})
+		go e.debounce(&readyFrame{})
+		go func() { e.stop(); close(done) }()
+		if !returned(done) {
+			hung++
+		}
+	}
+	return hung
+}
